@@ -3326,7 +3326,7 @@ EB_API EbErrorType svt_av1_enc_set_parameter(
     EbComponentType              *svt_enc_component,
     EbSvtAv1EncConfiguration     *config_struct)
 {
-    if(svt_enc_component == NULL)
+    if(svt_enc_component == NULL || config_struct == NULL)
         return EB_ErrorBadParameter;
 
     EbEncHandle        *enc_handle  = (EbEncHandle*)svt_enc_component->p_component_private;
@@ -3386,7 +3386,7 @@ EB_API EbErrorType svt_av1_enc_stream_header(
 {
     EbErrorType              return_error = EB_ErrorNone;
 
-    if(!svt_enc_component)
+    if(!svt_enc_component || !output_stream_ptr)
         return EB_ErrorBadParameter;
 
     EbEncHandle             *enc_handle  = (EbEncHandle*)svt_enc_component->p_component_private;
@@ -3670,6 +3670,8 @@ EB_API EbErrorType svt_av1_enc_send_picture(
     EbComponentType      *svt_enc_component,
     EbBufferHeaderType   *p_buffer)
 {
+    if (svt_enc_component == NULL || p_buffer == NULL)
+        return EB_ErrorBadParameter;
     EbEncHandle          *enc_handle_ptr = (EbEncHandle*)svt_enc_component->p_component_private;
     EbObjectWrapper      *eb_wrapper_ptr;
 
@@ -3729,6 +3731,8 @@ EB_API EbErrorType svt_av1_enc_get_packet(
     EbBufferHeaderType  **p_buffer,
     unsigned char          pic_send_done)
 {
+    if (svt_enc_component == NULL || p_buffer == NULL)
+        return EB_ErrorBadParameter;
     EbErrorType             return_error = EB_ErrorNone;
     EbEncHandle          *enc_handle = (EbEncHandle*)svt_enc_component->p_component_private;
     EbObjectWrapper      *eb_wrapper_ptr = NULL;
@@ -3760,7 +3764,7 @@ EB_API EbErrorType svt_av1_enc_get_packet(
 EB_API void svt_av1_enc_release_out_buffer(
     EbBufferHeaderType  **p_buffer)
 {
-    if (p_buffer && (*p_buffer)->wrapper_ptr)
+    if (p_buffer && *p_buffer && (*p_buffer)->wrapper_ptr)
     {
         if((*p_buffer)->p_buffer)
            EB_FREE((*p_buffer)->p_buffer);
@@ -3777,6 +3781,8 @@ EB_API EbErrorType svt_av1_get_recon(
     EbComponentType      *svt_enc_component,
     EbBufferHeaderType   *p_buffer)
 {
+    if (svt_enc_component == NULL || p_buffer == NULL)
+        return EB_ErrorBadParameter;
     EbErrorType           return_error = EB_ErrorNone;
     EbEncHandle          *enc_handle = (EbEncHandle*)svt_enc_component->p_component_private;
     EbObjectWrapper      *eb_wrapper_ptr = NULL;
@@ -4048,6 +4054,8 @@ void svt_output_recon_buffer_header_destroyer(    EbPtr p)
 EB_API EbErrorType svt_av1_enc_get_stream_info(EbComponentType *    svt_enc_component,
                                     uint32_t stream_info_id, void* info)
 {
+    if (svt_enc_component == NULL || info == NULL)
+        return EB_ErrorBadParameter;
     if (stream_info_id >= SVT_AV1_STREAM_INFO_END || stream_info_id < SVT_AV1_STREAM_INFO_START) {
         return EB_ErrorBadParameter;
     }
